@@ -135,6 +135,7 @@ func (w *world) hook(loc string) {
 }
 
 func (w *world) handler(p any) {
+	w.hook("handler.enter") // a slow handler: other goroutines may run meanwhile
 	w.mu.Lock()
 	w.handled = append(w.handled, fmt.Sprint(p))
 	w.mu.Unlock()
